@@ -109,11 +109,7 @@ def handleSave (cmd : String) (args : List SExp) : String :=
           -- ... and those of the re-open theorems (C18_reopen_diff / C18_reopen_disa)
           let t := tablesApartB p.dpfs p.tree
           let w := descWFB ⟨p.difi, p.ivfc, p.dpfs, p.master⟩ p.descSize
-          let r := decide (0x200 ≤ c.tableOff) && decide (c.tableOff + c.tableSize ≤ p.pOff) && decide (p.pOff ≤ c.F.length) &&
-            decide (p.descOff + p.descSize ≤ c.tableSize) &&
-            c.parts.all (fun q => q.index == p.index ||
-              (decide (q.descOff + q.descSize ≤ p.descOff ∨ p.descOff + p.descSize ≤ q.descOff) &&
-               decide (c.tableOff + c.tableSize ≤ q.pOff) && decide (q.pOff + q.pSize ≤ p.pOff ∨ p.pOff + p.pSize ≤ q.pOff)))
+          let r := reopenLayoutB c p.index p && regularB c
           "p" ++ toString p.index ++ ":" ++ (if g then "g" else "-") ++ (if lay then "l" else "-") ++ (if d then "d" else "-") ++
             (if t then "t" else "-") ++ (if w then "w" else "-") ++ (if r then "r" else "-"))
     | _, _ => "bad-args"
